@@ -2,7 +2,7 @@
 Under /venv/bin/python with PYTHONPATH=$OUTRANK_REPO.  JSON on stdin, one line `@@RESULT <json>` on stdout.
 
 case = {cols, label, heuristic, tro, cap, batches, nrows, data_seed[, prelude: [case...]][, light]
-        [, combine: {order, rel, cap}][, pool: {kind: fake|pathos, ncpus}]}
+        [, combine: {order, rel, cap}][, pool: {kind: fake|pathos, ncpus}][, ref: [feature strings of the reference model JSON]]}
 result.cols = the columns of the frame actually ranked (differs from case.cols only with `combine`)
 result = {ok, cands: [[a, b]], cap_after_cands, batches: [{rows: [[a, b, score_key]], cap_after, sampled: [[a, b]] | None}], error}
 score_key = "0" for a score equal to 0.0, otherwise the hex of the IEEE-754 bits (equal keys <=> bit-identical scores).
@@ -144,7 +144,35 @@ def as_pair(t):
 ROW_RECORD_LIMIT = 6000   # rows recorded per batch; the true number is always reported in nrows
 
 
+def _pseudo_scorer(combination, reference_model_features, args, tmp_df=None):
+    # harness-side replacement of the scorer for reference-model cases (C06 is about WHICH pairs are evaluated):
+    # deterministic, orientation-dependent, never 0
+    import zlib
+    a, b = combination
+    return a, b, 0.25 + (zlib.crc32((str(a) + '\x00' + str(b)).encode('utf8', 'surrogatepass')) % 1000) / 4000.0
+
+
 def run_case(case):
+    ref = case.get('ref')
+    if ref is None:
+        return _run_case(case, None)
+    import os
+    path = os.path.join(os.getcwd(), 'c06_ref_%d.json' % os.getpid())
+    with open(path, 'w') as f:
+        json.dump({'desc': {'features': list(ref)}}, f)
+    orig = cr.get_importances_estimate_pairwise
+    cr.get_importances_estimate_pairwise = _pseudo_scorer
+    try:
+        return _run_case(case, path)
+    finally:
+        cr.get_importances_estimate_pairwise = orig
+        try:
+            os.remove(path)
+        except OSError:
+            pass
+
+
+def _run_case(case, ref_path):
     reset_globals()
     res = {'ok': True, 'cols': None, 'cands': None, 'cap_after_cands': None, 'batches': [], 'error': None}
     try:
@@ -160,10 +188,14 @@ def run_case(case):
             df = cr.compute_combined_features(df, ca, FakeBar(), bool(comb.get('rel')))
         res['cols'] = [str(x) for x in df.columns]
         a0 = make_args(case)
+        if ref_path:
+            a0.reference_model_JSON = ref_path
         cands = cr.get_combinations_from_columns(df.columns, a0)
         res['cands'] = [as_pair(t) for t in cands]
         res['cap_after_cands'] = int(a0.combination_number_upper_bound)
         args = make_args(case)
+        if ref_path:
+            args.reference_model_JSON = ref_path
         light = bool(case.get('light'))
         pool, cleanup = make_pool(case)
         for _ in range(case['batches']):
